@@ -447,6 +447,11 @@ class Extractor:
             fenv.pop(name, None)                          # no longer a plain temporary
             self.promoted = getattr(self, 'promoted', set()) | {name}
             return
+        if op == '-=' and name in self.acc and getattr(self, 'locals_ok', False):
+            self.acc[name].append((-self.rat(rhs, ienv, fenv), list(loops), node))
+            fenv.pop(name, None)
+            self.promoted = getattr(self, 'promoted', set()) | {name}
+            return
         raise Unsupported('update %s of scalar %s' % (op, name))
 
     def store(self, arr, idx, op, rhs, loops, ienv, fenv, node):
